@@ -42,6 +42,9 @@ checks = {
  "C17": dict(cat="exploration", tech="deterministic simulation; cancellation as a controller action at every decision index; simulated clock for the Shutdown poll",
    text="The server context is cancelled at a drawn decision index of a workload with handshakes in progress / stalled, idle keep-alive HTTP/1.1, open HTTP/2 and HTTP/1.1 exchanges held in flight by a slow back-end; also before Serve and repeatedly. Oracle: nothing attempted after the cancel reaches the back-end or gets an answer; the proxy writes nothing more on an HTTP/1.1 connection after Serve has returned (an exchange still in flight would); Serve returns http.ErrServerClosed with the listener closed within 2 simulated seconds of the cancel / last exchange; idle HTTP/1.1 connections are closed.",
    note="Observation O6: in-flight exchanges are cancelled (504) on shutdown because request contexts derive from the server context; the property does not promise their success.", ref="7/C17"),
+ "C18": dict(cat="exploration", engine="simstream", tech="deterministic simulation of two HPACK endpoints (blocks one way in seeded fragments, table-size limits the other way with seeded delay, truncation at an offset) + differential reference for arbitrary bytes",
+   text="Encoder and decoder of pkg/http2/hpack as two endpoints: header blocks reach the decoder in fragments cut at seeded offsets, table-size limits reach the encoder after a seeded number of further blocks, a block may be truncated by Close at any offset. Decided by the simulated histories: round trip (order, sensitivity), fragment independence, identical encoder/decoder dynamic tables within the permitted size after every block, truncation inside a field rejected with only complete fields emitted, no panic. The clause 'result is what RFC 7541 specifies for any byte string' is a pure function of the input and is only sampled, differentially against x/net hpack v0.19.0.",
+   note="Component level only: nothing in the proxy imports pkg/http2/hpack (the fork's server uses golang.org/x/net/http2/hpack). The upstream reference shares defect D10 and is excluded from the comparison where it rejects a double size update.", ref="7/C18"),
  "C19": dict(cat="exploration", engine="simstream", tech="deterministic simulation of the pipe between a writing and a reading Framer (seeded cuts, short reads, failure at an offset) + independent frame codec as reference",
    text="Frames written by every Write* method with boundary and seeded parameters must equal the independent refframe encoding byte for byte and be read back as the same frames through a pipe that cuts and fails at seeded offsets (or fail with an I/O error, never a different frame, never above the read limit), header blocks reassembled across CONTINUATION by ReadMetaHeaders. Arbitrary frames / raw bytes: no panic, read limit respected, malformed frames and illegal HEADERS/CONTINUATION interleavings rejected with a code from the set RFC 7540 assigns (this clause is a pure function of the input: sampled, not decided by simulation).",
    note="SETTINGS value ranges and header-block opened by PUSH_PROMISE are judged one layer up (C13), not by the codec table. WriteHeaders cannot express 'padded with length 0' nor an all-zero priority; those are generated only on the arbitrary-bytes side.", ref="7/C19"),
